@@ -73,7 +73,10 @@ Inductive icall :=
 | SetSelFile (b : bool) | GetSelFile
 | SetSelString (b : bool) | GetSelString
 | SetSelName (v : option string) | GetSelName
-| GetId.
+| GetId
+| Load                                       (* successful LoadDatabase*: UnLoadDatabase resets the per-user-number switches and the current number *)
+| RunDefines (ns : list Z).                  (* a successful run whose input defines SELECTED_OUTPUT n (no -file) for each n: punch_open
+                                                gives n its default file name unless one is already stored *)
 
 Inductive res := RInt (z : Z) | RStr (s : string) | RVoid.
 
@@ -105,6 +108,13 @@ Definition istep (i : inst) (c : icall) : inst * res :=
       end
   | GetSelName => (i, RStr (match alookup (i_cur i) (i_seln i) with Some s => s | None => EmptyString end))
   | GetId => (i, RInt (i_id i))
+  | Load => (mkInst (i_id i) (i_sw i) (i_name i) 1 [(1, false)] [(1, false)] (i_seln i), RInt 0)
+  | RunDefines ns =>
+      (mkInst (i_id i) (i_sw i) (i_name i) (i_cur i) (i_self i) (i_sels i)
+              (fold_left (fun m n => match alookup n m with
+                                     | Some EmptyString | None => aset n (sel_default_name (i_id i) n) m
+                                     | Some _ => m
+                                     end) ns (i_seln i)), RInt 0)
   end.
 
 (** the registry *)
